@@ -6,7 +6,7 @@ the per-unit flags the repository's own Makefile would use (read from `make -n -
 import atexit
 import hashlib
 import json
-import os
+import os, time
 import re
 import shlex
 import shutil
@@ -271,7 +271,17 @@ class Workspace:
         outdir = os.path.join(self.tmp, "%s-%s-%s" % (key[0], shape, hashlib.md5(repr(extra).encode()).hexdigest()[:6]))
         os.makedirs(outdir, exist_ok=True)
         with ThreadPoolExecutor(max_workers=16) as ex:
-            res = list(ex.map(lambda u: self._one(u, cfg, shape, outdir, extra), self.units))
+            def one(u):
+                # a tool that cannot be started right now (binary being replaced, fork failure under load) is
+                # retried once; a second failure is reported as analysis-broken with the unit's name
+                for attempt in (0, 1):
+                    try:
+                        return self._one(u, cfg, shape, outdir, extra)
+                    except OSError as e:
+                        err = "%s: %s" % (type(e).__name__, e)
+                        time.sleep(2)
+                return (u["unit"], None, err)
+            res = list(ex.map(one, self.units))
         mods = {}
         for unit, js, err in res:
             if js is None:
